@@ -5,7 +5,7 @@
 
    C17_stmt (Model/Cppm.v) for one class: for every constructor call and every
    list of member calls to which the documentation gives a meaning
-   (doc_run = Some ...: default / key constructor with a key or NULL; set_key
+   (cpp_doc_run = Some ...: default / key constructor with a key or NULL; set_key
    with key_size() bytes, with length 0 - the all-zero key, any pointer - with
    an 80-byte saved key (ISAP), with any other length or a null key - false,
    nothing changes; set_nonce with any length; set_counter; pointer and
@@ -26,10 +26,10 @@ Local Open Scope nat_scope.
 (* aead128, aead128a (klen 16), aead80pq (klen 20) *)
 Theorem C17_aead_plain : forall klen c_encrypt c_decrypt, klen = 16 \/ klen = 20 ->
   cfun_ok bytes c_encrypt c_decrypt eq ->
-  C17_stmt unit bytes klen c_encrypt c_decrypt (keying_plain klen klen) false false raw_key_of_doc eq.
+  C17_stmt unit bytes klen c_encrypt c_decrypt (cpp_keying_plain klen klen) false false cpp_raw_key_of_doc eq.
 Proof.
   intros klen ce cd Hk CF.
-  exact (sim unit bytes klen ce cd _ false false raw_key_of_doc eq CF
+  exact (sim unit bytes klen ce cd _ false false cpp_raw_key_of_doc eq CF
            (keying_plain_ok klen (proj1 (klen_ok klen Hk)) (proj2 (klen_ok klen Hk)))).
 Qed.
 Print Assumptions C17_aead_plain.
@@ -41,7 +41,7 @@ Theorem C17_aead_masked : forall (R mkey : Type) mk_init mk_zero mk_rand (mk_val
     klen c_encrypt c_decrypt, klen = 16 \/ klen = 20 ->
   mkey_ok R mkey mk_init mk_zero mk_rand mk_value klen ->
   cfun_ok mkey c_encrypt c_decrypt (mkeq mkey mk_value) ->
-  C17_stmt R mkey klen c_encrypt c_decrypt (keying_masked R mkey mk_init mk_zero mk_rand klen) false false
+  C17_stmt R mkey klen c_encrypt c_decrypt (cpp_keying_masked R mkey mk_init mk_zero mk_rand klen) false false
            (masked_key_of_doc R mkey mk_init r0) (mkeq mkey mk_value).
 Proof.
   intros R mkey mi mz mr mv r0 klen ce cd Hk M CF.
@@ -52,13 +52,13 @@ Print Assumptions C17_aead_masked.
 
 (* siv128, siv128a, and siv80pq ONCE ITS KEY CONSTRUCTOR COPIES 20 BYTES *)
 Theorem C17_aead_siv : forall c_encrypt c_decrypt, cfun_ok bytes c_encrypt c_decrypt eq ->
-  C17_stmt unit bytes 16 c_encrypt c_decrypt (keying_plain 16 16) false false raw_key_of_doc eq /\
-  C17_stmt unit bytes 20 c_encrypt c_decrypt (keying_plain 20 (siv80pq_ncopy Fixed)) false false raw_key_of_doc eq.
+  C17_stmt unit bytes 16 c_encrypt c_decrypt (cpp_keying_plain 16 16) false false cpp_raw_key_of_doc eq /\
+  C17_stmt unit bytes 20 c_encrypt c_decrypt (cpp_keying_plain 20 (cpp_siv80pq_ncopy CodeFixed)) false false cpp_raw_key_of_doc eq.
 Proof.
   intros ce cd CF.
-  exact (conj (sim unit bytes 16 ce cd _ false false raw_key_of_doc eq CF
+  exact (conj (sim unit bytes 16 ce cd _ false false cpp_raw_key_of_doc eq CF
                  (keying_plain_ok 16 (proj1 (klen_ok 16 (or_introl eq_refl))) (proj2 (klen_ok 16 (or_introl eq_refl)))))
-              (sim unit bytes 20 ce cd _ false false raw_key_of_doc eq CF
+              (sim unit bytes 20 ce cd _ false false cpp_raw_key_of_doc eq CF
                  (keying_plain_ok 20 (proj1 (klen_ok 20 (or_intror eq_refl))) (proj2 (klen_ok 20 (or_intror eq_refl)))))).
 Qed.
 Print Assumptions C17_aead_siv.
@@ -68,16 +68,16 @@ Print Assumptions C17_aead_siv.
    every pair of C functions.  Witness: storage 0xFF.., siv80pq(key) with key =
    1..20: the object holds 1..16,ff,ff,ff,ff. *)
 Theorem C17_aead_siv80pq_refuted : forall c_encrypt c_decrypt,
-  ~ C17_stmt unit bytes 20 c_encrypt c_decrypt (keying_plain 20 (siv80pq_ncopy AsFound)) false false raw_key_of_doc eq.
+  ~ C17_stmt unit bytes 20 c_encrypt c_decrypt (cpp_keying_plain 20 (cpp_siv80pq_ncopy CodeAsFound)) false false cpp_raw_key_of_doc eq.
 Proof. exact siv80pq_asfound_refuted. Qed.
 Print Assumptions C17_aead_siv80pq_refuted.
 
 (* the model of the CURRENT code (flag siv80pq_code in Model/Cppm.v): refuted
-   while the flag says AsFound, proved once it says Fixed *)
+   while the flag says CodeAsFound, proved once it says CodeFixed *)
 Theorem C17_aead_siv80pq_current : forall c_encrypt c_decrypt,
   match siv80pq_code with
-  | AsFound => ~ C17_stmt unit bytes 20 c_encrypt c_decrypt (keying_plain 20 (siv80pq_ncopy siv80pq_code)) false false raw_key_of_doc eq
-  | Fixed => keying_ok unit bytes 20 (keying_plain 20 (siv80pq_ncopy siv80pq_code)) false false raw_key_of_doc eq
+  | CodeAsFound => ~ C17_stmt unit bytes 20 c_encrypt c_decrypt (cpp_keying_plain 20 (cpp_siv80pq_ncopy siv80pq_code)) false false cpp_raw_key_of_doc eq
+  | CodeFixed => keying_ok unit bytes 20 (cpp_keying_plain 20 (cpp_siv80pq_ncopy siv80pq_code)) false false cpp_raw_key_of_doc eq
   end.
 Proof. exact (siv80pq_status siv80pq_code). Qed.
 Print Assumptions C17_aead_siv80pq_current.
@@ -87,8 +87,8 @@ Print Assumptions C17_aead_siv80pq_current.
    (isap_aead_init) or an 80-byte saved key (isap_aead_load_key) *)
 Theorem C17_aead_isap : forall (pk : Type) isap_init isap_load klen c_encrypt c_decrypt, klen = 16 \/ klen = 20 ->
   cfun_ok pk c_encrypt c_decrypt eq ->
-  C17_stmt unit pk klen c_encrypt c_decrypt (keying_isap pk isap_init isap_load Fixed klen) true true
-           (isap_key_of_doc pk isap_init isap_load) eq.
+  C17_stmt unit pk klen c_encrypt c_decrypt (cpp_keying_isap pk isap_init isap_load CodeFixed klen) true true
+           (cpp_isap_key_of_doc pk isap_init isap_load) eq.
 Proof.
   intros pk ii il klen ce cd Hk CF.
   exact (sim unit pk klen ce cd _ true true _ eq CF
@@ -101,25 +101,25 @@ Print Assumptions C17_aead_isap.
    T(); set_key(NULL, 0) - documented to install the all-zero key - reads
    through the null pointer. *)
 Theorem C17_aead_isap_refuted : forall (pk : Type) isap_init isap_load klen c_encrypt c_decrypt, 0 < klen ->
-  ~ C17_stmt unit pk klen c_encrypt c_decrypt (keying_isap pk isap_init isap_load AsFound klen) true true
-             (isap_key_of_doc pk isap_init isap_load) eq.
+  ~ C17_stmt unit pk klen c_encrypt c_decrypt (cpp_keying_isap pk isap_init isap_load CodeAsFound klen) true true
+             (cpp_isap_key_of_doc pk isap_init isap_load) eq.
 Proof. intros pk ii il klen ce cd. exact (isap_asfound_refuted pk ii il klen ce cd). Qed.
 Print Assumptions C17_aead_isap_refuted.
 
 (* ... and with a non-null pointer the key silently becomes the bytes at the pointer *)
 Theorem C17_aead_isap_setkey0_reads_pointer : forall (pk : Type) isap_init isap_load klen c_encrypt c_decrypt b,
   0 < klen -> klen <= length b ->
-  code_run unit pk c_encrypt c_decrypt (keying_isap pk isap_init isap_load AsFound klen) CDefault [OSetKey tt (Some b) 0] =
-  Ok ({| o_key := isap_init (firstn klen b); o_nonce := zeros 16 |}, [RBool true]).
+  cpp_code_run unit pk c_encrypt c_decrypt (cpp_keying_isap pk isap_init isap_load CodeAsFound klen) CppDefault [CpSetKey tt (Some b) 0] =
+  CppOk ({| cpo_key := isap_init (firstn klen b); cpo_nonce := zeros 16 |}, [CprBool true]).
 Proof. intros pk ii il klen ce cd b. exact (isap_asfound_setkey0_reads_pointer pk ii il klen ce cd b). Qed.
 Print Assumptions C17_aead_isap_setkey0_reads_pointer.
 
 Theorem C17_aead_isap_current : forall (pk : Type) isap_init isap_load klen c_encrypt c_decrypt, 0 < klen -> klen <> 80 ->
   match isap_setkey0_code with
-  | AsFound => ~ C17_stmt unit pk klen c_encrypt c_decrypt (keying_isap pk isap_init isap_load isap_setkey0_code klen) true true
-                   (isap_key_of_doc pk isap_init isap_load) eq
-  | Fixed => keying_ok unit pk klen (keying_isap pk isap_init isap_load isap_setkey0_code klen) true true
-                   (isap_key_of_doc pk isap_init isap_load) eq
+  | CodeAsFound => ~ C17_stmt unit pk klen c_encrypt c_decrypt (cpp_keying_isap pk isap_init isap_load isap_setkey0_code klen) true true
+                   (cpp_isap_key_of_doc pk isap_init isap_load) eq
+  | CodeFixed => keying_ok unit pk klen (cpp_keying_isap pk isap_init isap_load isap_setkey0_code klen) true true
+                   (cpp_isap_key_of_doc pk isap_init isap_load) eq
   end.
 Proof. intros pk ii il klen ce cd. exact (isap_status pk ii il isap_setkey0_code klen ce cd). Qed.
 Print Assumptions C17_aead_isap_current.
@@ -128,18 +128,18 @@ Print Assumptions C17_aead_isap_current.
    whose keying members are right) the next packet is the C function under
    the documented key and nonce; the nonce then advances by one; a failed
    decrypt leaves it. *)
-Theorem C17_packet : forall (R ckey : Type) klen c_encrypt c_decrypt (K : keying R ckey) hs cl key_of_doc keq,
+Theorem C17_packet : forall (R ckey : Type) klen c_encrypt c_decrypt (K : cpp_keying R ckey) hs cl key_of_doc keq,
   cfun_ok ckey c_encrypt c_decrypt keq -> keying_ok R ckey klen K hs cl key_of_doc keq ->
   forall c ops d rs k n ad m,
-  doc_run R ckey klen c_encrypt c_decrypt hs cl key_of_doc c ops = Some (d, rs) -> dk d = Some k -> dn d = Some n ->
-  exists o, code_run R ckey c_encrypt c_decrypt K c ops = Ok (o, rs) /\
-    do_encrypt ckey c_encrypt o ad m =
-      (bump ckey o, (Z.of_nat (snd (c_encrypt (key_of_doc k) n ad m)), fst (c_encrypt (key_of_doc k) n ad m))) /\
-    o_nonce (bump ckey o) = increment_nonce n /\
-    do_decrypt ckey c_decrypt o ad m =
+  cpp_doc_run R ckey klen c_encrypt c_decrypt hs cl key_of_doc c ops = Some (d, rs) -> cpd_key d = Some k -> cpd_nonce d = Some n ->
+  exists o, cpp_code_run R ckey c_encrypt c_decrypt K c ops = CppOk (o, rs) /\
+    cpp_do_encrypt ckey c_encrypt o ad m =
+      (cpp_bump ckey o, (Z.of_nat (snd (c_encrypt (key_of_doc k) n ad m)), fst (c_encrypt (key_of_doc k) n ad m))) /\
+    cpo_nonce (cpp_bump ckey o) = increment_nonce n /\
+    cpp_do_decrypt ckey c_decrypt o ad m =
       match c_decrypt (key_of_doc k) n ad m with
       | DecShort => (o, ((-1)%Z, None))
-      | DecDone r p => if (0 <=? r)%Z then (bump ckey o, (Z.of_nat (length p), Some p)) else (o, ((-1)%Z, Some p))
+      | DecDone r p => if (0 <=? r)%Z then (cpp_bump ckey o, (Z.of_nat (length p), Some p)) else (o, ((-1)%Z, Some p))
       end.
 Proof. exact packet. Qed.
 Print Assumptions C17_packet.
@@ -148,10 +148,10 @@ Print Assumptions C17_packet.
    bytes the pointer overload writes; a refused ciphertext (too short or bad
    tag) leaves the vector empty and the object (nonce) unchanged *)
 Theorem C17_bytearray_overloads : forall (ckey : Type) c_encrypt c_decrypt keq, cfun_ok ckey c_encrypt c_decrypt keq ->
-  forall (o : obj ckey) old ad x,
-  ba_encrypt ckey c_encrypt o old ad x = (fst (do_encrypt ckey c_encrypt o ad x), snd (snd (do_encrypt ckey c_encrypt o ad x))) /\
-  ba_decrypt ckey c_decrypt o old ad x =
-    match do_decrypt ckey c_decrypt o ad x with
+  forall (o : cpp_obj ckey) old ad x,
+  cpp_ba_encrypt ckey c_encrypt o old ad x = (fst (cpp_do_encrypt ckey c_encrypt o ad x), snd (snd (cpp_do_encrypt ckey c_encrypt o ad x))) /\
+  cpp_ba_decrypt ckey c_decrypt o old ad x =
+    match cpp_do_decrypt ckey c_decrypt o ad x with
     | (o', (r, Some m)) => if (r <? 0)%Z then (o, (false, [])) else (o', (true, m))
     | (o', (r, None)) => (o, (false, []))
     end.
@@ -166,8 +166,8 @@ Theorem C17_helpers : forall c_to_hex c_from_hex,
   (forall junk input upper chars, c_to_hex input upper (2 * length input + 1) = Some chars ->
      length chars = 2 * length input -> Forall (fun x => x <> 0%N) chars ->
      cpp_bytes_to_hex c_to_hex junk input upper = chars) /\
-  (forall b len, 0 < len -> len <= length b -> cpp_bytes_from_data (Some b) len = Ok (firstn len b)) /\
-  (forall p, cpp_bytes_from_data p 0 = Ok []) /\
+  (forall b len, 0 < len -> len <= length b -> cpp_bytes_from_data (Some b) len = CppOk (firstn len b)) /\
+  (forall p, cpp_bytes_from_data p 0 = CppOk []) /\
   (forall chars, cpp_bytes_from_hex c_from_hex chars =
      match c_from_hex (length chars / 2) chars with
      | Some w => if length w =? length chars / 2 then w else set_at (zeros (length chars / 2)) 0 w
@@ -180,19 +180,19 @@ Qed.
 Print Assumptions C17_helpers.
 
 (* hash, hasha, xof_with_output_length<L>, xofa_with_output_length<L>: every
-   member is the C call sequence calls_of / hcalls_of, for whole histories *)
+   member is the C call sequence cpp_calls_of / cpp_hcalls_of, for whole histories *)
 Theorem C17_hash_xof :
   (forall (S : Type) c_init c_init_fixed c_init_custom c_reinit c_reinit_fixed c_absorb c_squeeze c_pad c_copy c_free,
      (forall (s : S) n, length (snd (c_squeeze s n)) = n) ->
      forall L ops s,
      xof_steps S c_reinit c_reinit_fixed c_absorb c_squeeze c_pad c_copy c_free L s ops =
-     c_exec_list S c_init c_init_fixed c_init_custom c_reinit c_reinit_fixed c_absorb c_squeeze c_pad c_copy c_free s
-       (flat_map (calls_of S L) ops)) /\
+     cpp_c_exec_list S c_init c_init_fixed c_init_custom c_reinit c_reinit_fixed c_absorb c_squeeze c_pad c_copy c_free s
+       (flat_map (cpp_calls_of S L) ops)) /\
   (forall (S : Type) h_reinit h_update h_finalize h_copy h_free h_oneshot,
      (forall s : S, length (snd (h_finalize s)) = 32) ->
      forall s x,
-     hash_step S h_reinit h_update h_finalize h_copy h_free h_oneshot s x =
-     h_exec_list S h_reinit h_update h_finalize h_copy h_free h_oneshot s (hcalls_of S x)).
+     cpp_hash_step S h_reinit h_update h_finalize h_copy h_free h_oneshot s x =
+     cpp_h_exec_list S h_reinit h_update h_finalize h_copy h_free h_oneshot s (cpp_hcalls_of S x)).
 Proof. exact (conj xof_history_eq hash_member_eq). Qed.
 Print Assumptions C17_hash_xof.
 
@@ -201,13 +201,13 @@ Print Assumptions C17_hash_xof.
    / reinit *)
 Theorem C17_templates : forall (S : Type) c_init c_init_fixed c_init_custom c_reinit c_reinit_fixed c_absorb c_squeeze c_pad
     (c_copy : S -> S -> S) c_free L,
-  xof_ctor S c_init c_init_fixed c_init_custom c_copy L (XDefault S) = (if L =? 0 then c_init else c_init_fixed L) /\
-  xof_ctor S c_init c_init_fixed c_init_custom c_copy 0 (XDefault S) = c_init /\
-  (forall nm cu, xof_ctor S c_init c_init_fixed c_init_custom c_copy L (XCustom S nm cu) = c_init_custom nm cu L) /\
-  (forall junk o, xof_ctor S c_init c_init_fixed c_init_custom c_copy L (XCopy S junk o) = c_copy junk o) /\
-  (forall s, fst (xof_step S c_reinit c_reinit_fixed c_absorb c_squeeze c_pad c_copy c_free L s (XReset S)) =
+  cpp_xof_ctor S c_init c_init_fixed c_init_custom c_copy L (CpxDefault S) = (if L =? 0 then c_init else c_init_fixed L) /\
+  cpp_xof_ctor S c_init c_init_fixed c_init_custom c_copy 0 (CpxDefault S) = c_init /\
+  (forall nm cu, cpp_xof_ctor S c_init c_init_fixed c_init_custom c_copy L (CpxCustom S nm cu) = c_init_custom nm cu L) /\
+  (forall junk o, cpp_xof_ctor S c_init c_init_fixed c_init_custom c_copy L (CpxCopy S junk o) = c_copy junk o) /\
+  (forall s, fst (cpp_xof_step S c_reinit c_reinit_fixed c_absorb c_squeeze c_pad c_copy c_free L s (CpxReset S)) =
              if L =? 0 then c_reinit s else c_reinit_fixed s L) /\
-  (forall s, fst (xof_step S c_reinit c_reinit_fixed c_absorb c_squeeze c_pad c_copy c_free 0 s (XReset S)) = c_reinit s).
+  (forall s, fst (cpp_xof_step S c_reinit c_reinit_fixed c_absorb c_squeeze c_pad c_copy c_free 0 s (CpxReset S)) = c_reinit s).
 Proof.
   intros S ci cf cc cr crf ca cs cp cy cfr L.
   exact (xof_templates S ci cf cc cr crf ca cs cp cy cfr L).
@@ -229,13 +229,13 @@ Example C17_nonvacuous :
   let enc := fun k n ad m => encrypt_c Perm.perm a80pq k n ad m in
   let dec := fun k n ad c => decrypt_c Perm.perm a80pq k n ad c in
   let key := map N.of_nat (seq 1 20) in
-  let c := CKey (repeat 255%N 36) tt (Some key) 0 in
-  let ops := [OSetNonce (Some [7;8;9]%N) 3; OEncrypt [1;2;3]%N (map N.of_nat (seq 50 21));
-              OSetKey tt None 0; OSetKey tt (Some key) 7; OEncryptBA [9%N] [] [5%N];
-              OSetCounter 258; ODecryptBA [1;1]%N [] (zeros 20)] in
+  let c := CppKeyCtor (repeat 255%N 36) tt (Some key) 0 in
+  let ops := [CpSetNonce (Some [7;8;9]%N) 3; CpEncrypt [1;2;3]%N (map N.of_nat (seq 50 21));
+              CpSetKey tt None 0; CpSetKey tt (Some key) 7; CpEncryptBA [9%N] [] [5%N];
+              CpSetCounter 258; CpDecryptBA [1;1]%N [] (zeros 20)] in
   exists d rs o,
-    doc_run unit bytes 20 enc dec false false raw_key_of_doc c ops = Some (d, rs) /\
-    code_run unit bytes enc dec (keying_plain 20 20) c ops = Ok (o, rs) /\
-    dk d = Some (DRaw (zeros 20)) /\ dn d = Some (be_encode 16 258) /\ length rs = 7 /\
-    nth 3 rs RUnit = RBool false /\ nth 6 rs RUnit = RDecBA false [].
+    cpp_doc_run unit bytes 20 enc dec false false cpp_raw_key_of_doc c ops = Some (d, rs) /\
+    cpp_code_run unit bytes enc dec (cpp_keying_plain 20 20) c ops = CppOk (o, rs) /\
+    cpd_key d = Some (CppRawKey (zeros 20)) /\ cpd_nonce d = Some (be_encode 16 258) /\ length rs = 7 /\
+    nth 3 rs CprUnit = CprBool false /\ nth 6 rs CprUnit = CprDecBA false [].
 Proof. vm_compute. eexists. eexists. eexists. repeat split. Qed.
